@@ -13,7 +13,10 @@ RULE = ("structures: random consistent Atoms (1–8 atoms quick / –12 thorough
         "of distinct mass/label and 10–25 bond/angle/dihedral/improper types with distinct coefficient entries, 10–30 atoms; no cell, orthorhombic, or LAMMPS-oriented "
         "tilted cell with tilt factors of either sign; 1–4 atom types incl. unused ones; any subset of bond/angle/dihedral/"
         "improper terms and coefficient tables incl. unused entries and ids beyond the table; coefficient strings = random "
-        "tokens separated by blanks/tabs with at most one trailing comment, possibly empty; any subset of the three tilt "
+        "tokens separated by blanks/tabs with at most one trailing comment, possibly empty; about one entry in six is LONG "
+        "(5–90 printed parameters as in class2 / hybrid styles, or a remark of 6–40 words: 40–800 characters, a sixth of all "
+        "entries beyond 64 and a tenth beyond 128 characters, mixed with short entries in the same table); occasional type "
+        "labels of 40–150 characters; any subset of the three tilt "
         "factors zero or rounding to zero; labels with inner blanks or "
         "empty; negative charges/coordinates/groups; numbers on the 10⁻⁶ grid, with more digits, exact printf ties (k/128) "
         "and tiny negatives; masses from the table or unknown), each in BOTH atom styles; plus a rejection stream (cells "
@@ -60,23 +63,38 @@ def rand_number(rng, lo, hi, mode=None):
     return core.q(x)
 
 
+def rand_param(rng):
+    """one numeric parameter the way force-field files print them (every digit is part of the entry's text)"""
+    return rng.choice(["%.4f", "%.4f", "%.1f", "%.6f", "%d", "%.3e", "%.10f"]) % (
+        rng.choice([0, rng.uniform(-200, 200), rng.uniform(-2, 2), rng.randint(-6, 360)]),)
+
+
 def rand_coeff(rng):
     """an arbitrary coefficient string: blank-separated tokens and at most one trailing comment (which may itself
     contain further '#': the comment starts at the first one)"""
-    toks = [rng.choice(TOKENS) for _ in range(rng.randint(0, 4))]
+    u = rng.random()
+    if u < 0.82:
+        ntok, nword = rng.randint(0, 4), rng.randint(0, 3)
+    elif u < 0.94:                           # many-parameter styles (class2 dihedrals, hybrid styles): a long line
+        ntok, nword = rng.choice([rng.randint(5, 12), rng.randint(12, 30), rng.randint(30, 90)]), rng.randint(0, 6)
+    else:                                    # few parameters and a long remark
+        ntok, nword = rng.randint(0, 4), rng.randint(6, 40)
+    toks = [rng.choice(TOKENS) if (ntok <= 4 or rng.random() < 0.4) else rand_param(rng) for _ in range(ntok)]
     s = rng.choice(["", "", " ", "\t"]) if toks else ""
     for i, t in enumerate(toks):
         s += t + (rng.choice(SEPS) if i + 1 < len(toks) else "")
     r = rng.random()
-    if r < 0.5:
+    if r < 0.5 or nword > 3:
         s += rng.choice(["", " ", "   "]) + "#" + rng.choice(["", " ", "  "]) + \
-             rng.choice(SEPS).join(rng.choice(WORDS) for _ in range(rng.randint(0, 3))) + rng.choice(["", " ", "  "])
+             rng.choice(SEPS).join(rng.choice(WORDS) for _ in range(nword)) + rng.choice(["", " ", "  "])
     elif r < 0.6:
         s += rng.choice([" ", "  "])
     return s
 
 
 def rand_label(rng, el, i):
+    if rng.random() < 0.04:                  # a long descriptive label
+        return "%s_%d " % (el, i + 1) + " ".join(rng.choice(WORDS[:9]) for _ in range(rng.randint(10, 40)))
     return rng.choice([el, el, "%s_%d" % (el, i + 1), "%s %d" % (el, i + 1), "%s  (sp2)" % el, "t%d" % i, "", "Atoms",
                        "%s#%d" % (el, i + 1), "#%s" % el, "%s # sp2 #" % el, "%sα" % el])
 
